@@ -137,6 +137,25 @@ def loop_header(ev, s, env, depth):
     raise Outside('loop at line %s is neither `for (i=0; i<N; i++)` nor an iterator loop' % s.get('l'))
 
 
+class _If(dict):
+    """a synthetic `if (cond) then else <rest>` built from `if (cond) {...; continue;} rest`"""
+    def __init__(self, ifs, rest):
+        dict.__init__(self, k='IfStmt', ch=[], l=ifs.get('l'))
+        self.r = {'cond': ifs.role('cond'), 'then': ifs.role('then'), 'else': rest}
+
+    def role(self, r):
+        return self.r.get(r)
+
+
+class _Seq(dict):
+    """a synthetic CompoundStmt over a tail of statements"""
+    def __init__(self, stmts):
+        dict.__init__(self, k='CompoundStmt', ch=list(stmts))
+
+    def role(self, r):
+        return None
+
+
 class Evaluator(object):
     def __init__(self, fx, consts=None, max_inline=4, cls_context=None):
         self.fx = fx
@@ -366,6 +385,10 @@ class Evaluator(object):
         n = A.strip_casts(n)
         if 'v' in n and n['k'] != 'DeclRefExpr':
             return bool(n['v'])
+        core, pol = A.bool_polarity(n, True)
+        if core is not n and core['i'] != n['i']:
+            t = self.truth(core, env, depth)
+            return None if t is None else (t if pol else (not t))
         try:
             kk = self.key(n, env, depth)
             if kk in self.assume:
@@ -418,7 +441,9 @@ class Evaluator(object):
         """evaluates statements until a return; returns Poly or None (fell through)"""
         k = s['k']
         if k == 'CompoundStmt':
-            for c in s['ch']:
+            for (ci, c) in enumerate(s['ch']):
+                if c['k'] == 'IfStmt' and c.role('else') is None and self.ends_with_continue(c.role('then')):
+                    return self.stmt_value(_If(c, _Seq(s['ch'][ci + 1:])), env, depth)
                 r = self.stmt_value(c, env, depth)
                 if r is not None:
                     return r
@@ -446,8 +471,11 @@ class Evaluator(object):
                 return self.stmt_value(th, env, depth)
             if t is False:
                 return self.stmt_value(el, env, depth) if el is not None else None
+            core, pol = A.bool_polarity(cond, True)
+            if not pol:
+                th, el = (el if el is not None else _Seq([])), th     # if (!c) A else B  ==  if (c) B else A
             e1, e2 = dict(env), dict(env)
-            ck = self.key(cond, env, depth)
+            ck = self.key(core, env, depth)
             r1 = self.under(ck, True, lambda: self.stmt_value(th, e1, depth))
             r2 = self.under(ck, False, lambda: self.stmt_value(el, e2, depth)) if el is not None else None
             if r1 is not None and r2 is not None:
@@ -560,7 +588,10 @@ class Evaluator(object):
         k = s['k']
         tot = {}
         if k == 'CompoundStmt':
-            for c in s['ch']:
+            for (ci, c) in enumerate(s['ch']):
+                if c['k'] == 'IfStmt' and c.role('else') is None and self.ends_with_continue(c.role('then')):
+                    # `if (c) {...; continue;}  rest`  ==  `if (c) {...} else {rest}`
+                    return padd(tot, self.io_stmt(_If(c, _Seq(s['ch'][ci + 1:])), env, sd, depth, verbs, g))
                 tot = padd(tot, self.io_stmt(c, env, sd, depth, verbs, g))
                 if c['k'] == 'ReturnStmt':
                     break
@@ -602,10 +633,11 @@ class Evaluator(object):
             # error-return branches (`if (x.IsError()) return x`) move no bytes and end the success path: ignore them
             if self.is_error_exit(th) and el is None:
                 return tot
-            ck = self.key(cond, env, depth)
-            a = self.under(ck, True, lambda: self.io_stmt(th, dict(env), sd, depth, verbs, g))
-            b = self.under(ck, False, lambda: self.io_stmt(el, dict(env), sd, depth, verbs, g)) if el is not None else {}
-            return padd(tot, palt(ck, a, b))
+            core, pol = A.bool_polarity(cond, True)
+            ck = self.key(core, env, depth)
+            a = self.under(ck, pol, lambda: self.io_stmt(th, dict(env), sd, depth, verbs, g))
+            b = self.under(ck, not pol, lambda: self.io_stmt(el, dict(env), sd, depth, verbs, g)) if el is not None else {}
+            return padd(tot, palt(ck, a, b) if pol else palt(ck, b, a))
         if k == 'ForStmt':
             body = s.role('body')
             var, count = loop_header(self, s, env, depth)
@@ -652,6 +684,13 @@ class Evaluator(object):
                     break
             return tot
         return self.io_expr(s, env, sd, depth, verbs, g)
+
+    def ends_with_continue(self, s):
+        if s is None:
+            return False
+        if s['k'] == 'ContinueStmt':
+            return True
+        return s['k'] == 'CompoundStmt' and bool(s['ch']) and s['ch'][-1]['k'] == 'ContinueStmt'
 
     def is_error_exit(self, s):
         rets = [n for n in s.walk() if n['k'] == 'ReturnStmt']
